@@ -250,7 +250,7 @@ theorem svcNew_ok_invP {P : Topo → Prop} (hP : SvcStable P) (fl : Flavour) (c 
   simp only [] at hok hpf
   obtain ⟨hle, hnone, hsome⟩ := hpf
   obtain ⟨t, h1, hok⟩ := ro_ok_inv (readOnly_need _ _) hok
-  have hty : a.nstype = some t := need_ok ⟨_, h1⟩
+  have hty : a.nstype = some t := need_some ⟨_, h1⟩
   obtain ⟨_, _, hok⟩ := ro_ok_inv (readOnly_guard _ _) hok
   obtain ⟨layer, _, hok⟩ := ro_ok_inv (readOnly_need _ _) hok
   obtain ⟨kw, _, hok⟩ := ro_ok_inv (readOnly_ofExcept _) hok
@@ -399,7 +399,7 @@ theorem svcNew_invD (fl : Flavour) (c : Nat) (parent : Option Nid) (a : SvcArgs)
   simp only [] at hpf ⊢
   obtain ⟨hle, hnone, hsome⟩ := hpf
   refine ro_step (Q := fun r => InvD r.2) (readOnly_need _ _) (fun _ => h) (fun t h1 => ?_)
-  have hty : a.nstype = some t := need_ok ⟨_, h1⟩
+  have hty : a.nstype = some t := need_some ⟨_, h1⟩
   refine ro_step (Q := fun r => InvD r.2) (readOnly_guard _ _) (fun _ => h) (fun _ _ => ?_)
   refine ro_step (Q := fun r => InvD r.2) (readOnly_need _ _) (fun _ => h) (fun layer _ => ?_)
   refine ro_step (Q := fun r => InvD r.2) (readOnly_ofExcept _) (fun _ => h) (fun kw _ => ?_)
